@@ -156,10 +156,9 @@ Definition add_unit (k : Qc) (c : cnode) : cnode :=
 Record ph1 := { s_opc : list (string * (expr * Qc)); s_labels : list (string * nat); s_circ : list cnode;
                 s_lmap : list (string * (nat * nat)) }.   (* frontend node -> (position in circ, unit) *)
 
-(* SECOND SWITCH: false = PyRates as it is (OperatorTemplate.cache keyed by the operator NAME: D9/D26); true = with
-   /verif/fixes/proposed_fix_C13_op_cache_key.diff (keyed by name, equations and variable declarations: a hit requires the same
-   definition).  harness/c13.py reads this line. *)
-Definition fixed_op_cache_key : bool := false.
+(* SECOND SWITCH: true = PyRates as it is now (repair D90, /verif/fixes/fix_D90.diff: OperatorTemplate.cache keyed by name, equations and
+   variable declarations: a hit requires the same definition); false = before (keyed by the operator NAME: D9/D26).  harness/c13.py reads this line. *)
+Definition fixed_op_cache_key : bool := true.
 
 Definition node_step_k (ok : bool) (nodec : list (expr * cnode)) (vec : bool) (s : ph1) (nd : mnode) : ph1 :=
   let '(eqe, kd, opc') :=
@@ -457,10 +456,10 @@ Definition ymodel (kA : option Qc) : model :=
                   {| m_label := "B"; m_op := "op"; m_eq := E1; m_kdef := mkq 2 1; m_over := None |} ];
      m_edges := [("A", "B", mkq 2 1)] |}.
 
-(* THIRD SWITCH: false = PyRates as it is (from_yaml hands out the cached CircuitTemplate object itself: D28); true = with
-   /verif/fixes/proposed_fix_C13_D28.diff (a cache hit hands out, and caches, a fresh copy of the circuit as it was loaded).
+(* THIRD SWITCH: true = PyRates as it is now (repair D91, /verif/fixes/fix_D91.diff: a cache hit hands out, and caches, a fresh copy of the
+   circuit as it was loaded); false = before (from_yaml handed out the cached CircuitTemplate object itself: D28).
    harness/c13.py reads this line. *)
-Definition fixed_yaml_copy : bool := false.
+Definition fixed_yaml_copy : bool := true.
 
 (* from_yaml: return the cached object, else load from disk and cache it *)
 Definition from_yaml_k (yc : bool) (g : G) : G * tentry :=
